@@ -24,7 +24,7 @@ LEVEL = 'fault_enumeration'
 RULE = ('arrangements: {output: factory | open stream} x {map: none | separate factory | separate open stream | same '
         'stream (inline)} x {names: absolute | relative | missing} x {nodes: single | list | generator | several '
         'sources} x {pretty, minify+obfuscate} x {source_mapping_url default | None | explicit} over small corpus '
-        'programs, nodes also given as a lazy iterable (its steps are fault points) and as an empty list (a usage error: what was opened must still be closed); read(): {factory | open stream} x {valid | syntax error | read fault}. For every arrangement every '
+        'programs, nodes also given as a lazy iterable (its steps are fault points) and as an empty list (a usage error: what was opened must still be closed), output streams that declare an encoding (utf-8, latin-1, ascii, shift_jis, utf-16) with the inline map decoded in the charset it announces; read(): {factory | open stream} x {valid | syntax error | read fault}. For every arrangement every '
         'fault point of the fault-free run is enumerated and injected twice, once as an Exception subclass and once as a failure that is not an Exception (as KeyboardInterrupt / SystemExit are). A case = (arrangement, fault point or '
         '"none"); every case is non-trivial; distinct by that pair.')
 ASSUMPTIONS = ['behaviour when close() itself raises, and non-string stream names, are not demanded',
